@@ -245,6 +245,26 @@ func TestC09(t *testing.T) {
 			{Base: "echo $(a\n)\n", Variant: "echo $(a # don`t\n)\n", Comments: []string{q(" don`t")}},
 			{Base: "echo $(a\n) `b`\n", Variant: "echo $(a # )\n) `b # $(`\n", Comments: []string{q(" )"), q(" $(")}},
 			{Base: "a | b\n", Variant: "a | # x`y\nb\n", Comments: []string{q(" x`y")}},
+			// a substitution inside an arithmetic expansion
+			{Base: "echo $(( $(a\n) + 1 ))\n", Variant: "echo $(( $(a # c\n) + 1 ))\n", Comments: []string{q(" c")}},
+			{Base: "echo $((1+`a\n`))\n", Variant: "echo $((1+`a # c\n`))\n", Comments: []string{q(" c")}},
+			{Base: "echo \"$(( $(a\n) ))\" b\n", Variant: "echo \"$(( $(a #x\n) ))\" b # y\n", Comments: []string{q("x"), q(" y")}},
+			{Base: "echo $(( $(a $(b\n)\n) ))\n", Variant: "echo $(( $(a $(b # in\n) # out\n) ))\n", Comments: []string{q(" in"), q(" out")}},
+			{Base: "(( $(a\n) ))\n", Variant: "(( $(a # c\n) ))\n", Comments: []string{q(" c")}},
+			{Base: "x=${y:-$(( $(a\n) ))}\n", Variant: "x=${y:-$(( $(a # c\n) ))}\n", Comments: []string{q(" c")}},
+			{Base: "cat <<E\n$(( $(a\n) ))\nE\n", Variant: "cat <<E\n$(( $(a # c\n) ))\nE\n", Comments: []string{q(" c")}},
+			// comments behind an operator inside backquotes (they are collected with the linebreak), with escaped backquotes in them
+			{Base: "echo `a &&\n b`\n", Variant: "echo `a && # the \\`date\\` of today\n b`\n", Comments: []string{q(" the \\`date\\` of today")}},
+			{Base: "echo `a |\nb`\n", Variant: "echo `a | # \\`\nb`\n", Comments: []string{q(" \\`")}},
+			{Base: "echo `a ||\nb`\n", Variant: "echo `a || #\\`x\\\\\nb`\n", Comments: []string{q("\\`x\\\\")}},
+			{Base: "echo `case x in\na) b;;\nesac`\n", Variant: "echo `case x in # \\`1\na) # \\`2\nb;; # \\`3\nesac`\n", Comments: []string{q(" \\`1"), q(" \\`2"), q(" \\`3")}},
+			{Base: "echo `for i in a\ndo b\ndone`\n", Variant: "echo `for i in a # \\`1\ndo b # \\`2\ndone`\n", Comments: []string{q(" \\`1"), q(" \\`2")}},
+			{Base: "echo `f()\n{ a; }`\n", Variant: "echo `f() # \\`\n{ a; }`\n", Comments: []string{q(" \\`")}},
+			// a comment line in front of the command whose text begins with an exclamation mark
+			{Base: "echo a\n", Variant: "#!/bin/sh\necho a\n", Comments: []string{q("!/bin/sh")}},
+			{Base: "echo a\n", Variant: "#!\necho a\n", Comments: []string{q("!")}},
+			{Base: "foo\n", Variant: "#!!\n#! second\nfoo\n", Comments: []string{q("!!"), q("! second")}},
+			{Base: "echo a\n", Variant: "#!/bin/sh\n\n# c\necho a # !\n", Comments: []string{q("!/bin/sh"), q(" c"), q(" !")}},
 		} {
 			c.What = "comment inside a command substitution"
 			if err := checkC09(c); err != nil {
